@@ -11,12 +11,18 @@ from props import c02, c08
 REQUIRED_THEOREMS = ['C17_hier_lengths', 'C17_grad_length', 'C17_reduced_lengths',
                      'C17_prefixed_nodup', 'C17_labels_nodup', 'C17_labels_reject_iff',
                      'C17_labels_early_test_counterexample', 'C17_resize_state', 'C17_resize_names',
-                     'C17_resize_free_count_counterexample']
+                     'C17_resize_free_count_counterexample', 'C17_top_level_names', 'C17_top_names_from_end_iff',
+                     'C17_top_names_from_end_counterexample', 'C17_top_level_names_reduced', 'C17_selection_count',
+                     'C17_selection_raw_count_iff', 'C17_selection_raw_count_counterexample']
 RULE = ('every kind of object (error models, population models incl. composed / covariate / reduced, individual '
         'and hierarchical likelihoods and posteriors, predictive models, SBML mechanistic models on the '
         'reference integrator) in random compositions (thorough: every composition of <=3 elementary sub-models '
         'with dims <=2) and after random reconfiguration sequences (set_n_ids, set_dim_names, '
         'set_parameter_names, fix_parameters, set_population_parameters, set_outputs, set_administration); '
+        'hierarchical likelihoods / posteriors also over reduced population models with some, all but one or ALL '
+        'population parameters fixed, observed at all levels and at the top level only (with and without ID '
+        'prefixes); selections of covariate-transformed parameters written as users do (any order, lists / tuples '
+        '/ arrays, pairs listed repeatedly), on the covariate model itself and through the wrapper; '
         'non-trivial = composite with >=2 sub-models or >=1 reconfiguration; distinct = (object kind, '
         'composition, reconfiguration sequence shape)')
 ASSUMPTIONS = ['names/counts/IDs are read through the public API only',
@@ -39,6 +45,66 @@ def stable_queries(ctx, tag, obj, inp, names_fn='get_parameter_names', count_fn=
                  {'first': a[:-1], 'second': b, 'third': c, 'count': n})
     except Exception as e:  # noqa
         ctx.spec(tag + '.repeated_queries', False, inp, {'raised': repr(e)[:200]})
+
+def repeat_pairs(rng, sel):
+    """a selection as a user may write it: some [param, dim] pairs listed more than once (adjacent or not), as
+    lists or as tuples — the selection is a set, repeating a pair selects it once"""
+    sel = [list(p) for p in sel]
+    for _ in range(int(rng.integers(1, 4))):
+        sel.insert(int(rng.integers(0, len(sel) + 1)), list(sel[int(rng.integers(len(sel)))]))
+    if rng.random() < 0.3:
+        sel = [tuple(p) for p in sel]
+    return sel
+
+
+def with_repeats(rng, subs, p=0.4):
+    out = []
+    for c, nd, nc, sel in subs:
+        if nc and sel is not None and rng.random() < p:
+            sel = repeat_pairs(rng, sel)
+        out.append((c, nd, nc, sel))
+    return out
+
+
+def once(sel):
+    """the selection with every pair written once, in the order of first appearance (the order in which the
+    transformed parameters are stored is not at stake here)"""
+    out = []
+    for p, d in sel:
+        if [int(p), int(d)] not in out:
+            out.append([int(p), int(d)])
+    return out
+
+
+def canon(subs):
+    """the same configuration with every selection written once per pair (for independent twins)"""
+    return [(c, nd, nc, None if sel is None else once(sel)) for c, nd, nc, sel in subs]
+
+
+def has_repeats(sel):
+    return sel is not None and len({(int(p), int(d)) for p, d in sel}) < len(sel)
+
+
+def make_models(ctx, chi, rng, subs, n_ids, inp):
+    """the sub-models of a case; a selection that lists a pair twice is made through the documented call on the
+    finished wrapper. Should such a selection be refused, the refusing call must leave the wrapper as consistent
+    as it found it (and the case ends there)."""
+    models = []
+    for c, nd, nc, sel in subs:
+        if not (nc and has_repeats(sel)):
+            models.append(c02.make_sub(chi, c, nd, nc, sel, n_ids=n_ids))
+            continue
+        m = c02.make_sub(chi, c, nd, nc, None, n_ids=n_ids)
+        try:
+            m.set_population_parameters(sel)
+        except (ValueError, IndexError):
+            ctx.branches.add('repeated-selection-refused')
+            m.set_n_ids(n_ids)
+            check_pop(ctx, m, n_ids, rng, dict(inp, refused_selection=sel, subs=[[c02.KINDS[c], nd, nc, None]]),
+                      'C17.population.after_refused_selection')
+            return None
+        models.append(m)
+    return models
 
 
 def check_pop(ctx, pm, n_ids, rng, inp, tag, known_tag=None, cov_pooled=False):
@@ -82,16 +148,20 @@ def check_pop(ctx, pm, n_ids, rng, inp, tag, known_tag=None, cov_pooled=False):
 def pop_objects(ctx, chi, rng, i, subs=None, n_ids=None, ops=True):
     if subs is None:
         n_ids, subs = c02.gen_case(rng)
-    models = [c02.make_sub(chi, *s, n_ids=n_ids) for s in subs]
-    composed = len(models) > 1 or rng.random() < 0.5
+        subs = with_repeats(rng, subs)
+    composed = len(subs) > 1 or rng.random() < 0.5
+    inp = {'object': 'population model', 'subs': [[c02.KINDS[c], nd, nc, sel] for c, nd, nc, sel in subs],
+           'composed': composed, 'n_ids': n_ids}
+    models = make_models(ctx, chi, rng, subs, n_ids, inp)
+    if models is None:
+        return
     pm = chi.ComposedPopulationModel(models) if composed else models[0]
     pm.set_n_ids(n_ids)
     hetero = any(c == 6 for c, _, _, _ in subs)
     seq = []
     wrapped_before_n_ids = False
     known = None
-    inp = {'object': 'population model', 'subs': [[c02.KINDS[c], nd, nc, sel] for c, nd, nc, sel in subs],
-           'composed': composed, 'n_ids': n_ids}
+    last_sel = None
     if ops:
         for _ in range(int(rng.integers(0, 4))):
             r = rng.random()
@@ -120,14 +190,13 @@ def pop_objects(ctx, chi, rng, i, subs=None, n_ids=None, ops=True):
                     pm.set_parameter_names(['q%d' % k for k in range(pm.n_parameters())])
                     pm.set_parameter_names(None)
                     seq.append('set_parameter_names(None)')
-                    fresh = [c02.make_sub(chi, *s_, n_ids=n_ids) for s_ in subs]
+                    fresh = [c02.make_sub(chi, *s_, n_ids=n_ids) for s_ in canon(subs)]
                     fresh = chi.ComposedPopulationModel(fresh) if composed else fresh[0]
                     fresh.set_n_ids(n_ids)
                     if any(x == 'set_dim_names' for x in seq):
                         fresh.set_dim_names(['d%d' % k for k in range(fresh.n_dim())])
-                    if any(x == 'set_population_parameters' for x in seq):
-                        # (the twin must carry the same selection: names of covariate coefficients follow it)
-                        fresh.set_population_parameters([[0, 0]])
+                    # (the twin carries the current selection, each pair written once: names of covariate
+                    # coefficients follow it)
                     ctx.spec('C17.population.names_after_reset', pm.get_parameter_names() == fresh.get_parameter_names(),
                              dict(inp, sequence=list(seq)),
                              {'after_reset': pm.get_parameter_names(), 'fresh': fresh.get_parameter_names()})
@@ -139,8 +208,21 @@ def pop_objects(ctx, chi, rng, i, subs=None, n_ids=None, ops=True):
                         pm.fix_parameters({nm[j]: 1.0 for j in rng.choice(len(nm), size=k, replace=False)})
                     seq.append('fix_parameters')
                 elif isinstance(pm, chi.CovariatePopulationModel):
-                    pm.set_population_parameters([[0, 0]])
-                    seq.append('set_population_parameters')
+                    # a new selection among the existing [param, dim] pairs, possibly listing pairs repeatedly
+                    allp = [[p_, d_] for p_ in range(c02.per_dim(subs[0][0], n_ids)) for d_ in range(subs[0][1])]
+                    sel_ = [allp[j] for j in rng.choice(len(allp), size=int(rng.integers(1, len(allp) + 1)),
+                                                        replace=False)]
+                    if rng.random() < 0.5:
+                        sel_ = repeat_pairs(rng, sel_)
+                    seq.append('set_population_parameters(%s)' % (sel_,))
+                    try:
+                        pm.set_population_parameters(sel_)
+                        last_sel = sel_
+                    except (ValueError, IndexError):
+                        if not has_repeats(sel_):
+                            raise
+                        ctx.branches.add('repeated-selection-refused')     # then nothing may have changed
+                    subs = [(subs[0][0], subs[0][1], subs[0][2], last_sel if last_sel is not None else subs[0][3])]
             except Exception as e:  # noqa
                 stale_sel = any(c == 6 and nc and sel is not None and any(p_ >= n_ids for p_, _ in sel)
                                 for c, _, nc, sel in subs)
@@ -163,6 +245,16 @@ def pop_objects(ctx, chi, rng, i, subs=None, n_ids=None, ops=True):
         sub_names = sum([m.get_parameter_names() for m in models], [])
         ctx.spec('C17.submodel_names_in_composite_order', pm.get_parameter_names() == sub_names, inp,
                  {'composite': pm.get_parameter_names(), 'parts': sub_names})
+    if not seq and any(has_repeats(sel) for _, _, _, sel in subs):
+        # a selection is a set: the object equals, in count and names, a fresh one whose selection lists each
+        # pair once
+        twin = [c02.make_sub(chi, *s_, n_ids=n_ids) for s_ in canon(subs)]
+        twin = chi.ComposedPopulationModel(twin) if composed else twin[0]
+        twin.set_n_ids(n_ids)
+        ctx.spec('C17.population.repeated_selection_is_a_set', pm.get_parameter_names() == twin.get_parameter_names()
+                 and pm.n_parameters() == twin.n_parameters(), inp,
+                 {'names': pm.get_parameter_names(), 'n': pm.n_parameters(),
+                  'fresh_with_each_pair_once': twin.get_parameter_names()})
 
 
 def reduced_before_n_ids(ctx, chi, rng):
@@ -379,6 +471,10 @@ def filter_posterior_objects(ctx, chi, rng, i):
         nt = post.n_parameters(exclude_bottom_level=True)
         ctx.spec('C17.FilterPosterior.ids_mark_individual_entries',
                  all(x is None for x in ids[:nt]) and all(x is not None for x in ids[nt:]), inp, {'ids': ids})
+        top = list(post.get_parameter_names(exclude_bottom_level=True))
+        top_pref = list(post.get_parameter_names(exclude_bottom_level=True, include_ids=True))
+        ctx.spec('C17.FilterPosterior.top_level_names', len(top) == nt == len(top_pref) and top == list(names[:nt])
+                 and top_pref == list(pref[:nt]), inp, {'n_top': nt, 'top_names': top, 'top_names_with_ids': top_pref})
         x = rng.uniform(0.6, 1.4, n)
         with np.errstate(all='ignore'):
             post(x)
@@ -483,6 +579,8 @@ def controller_objects(ctx, chi, rng, i):
         ctx.spec('C17.Controller.hierarchical_posterior_lengths',
                  m == len(hp.get_parameter_names()) == len(ids) == len(hp.get_parameter_names(include_ids=True)) and
                  hp.n_parameters(exclude_bottom_level=True) == nt and
+                 list(hp.get_parameter_names(exclude_bottom_level=True)) == list(pn) ==
+                 list(hp.get_parameter_names(exclude_bottom_level=True, include_ids=True)) and
                  len(set(hp.get_parameter_names(include_ids=True))) == m, dict(inp, sequence=seq),
                  {'n': m, 'names': len(hp.get_parameter_names()), 'ids': len(ids)})
         xs = rng.uniform(0.5, 1.5, m)
@@ -494,12 +592,165 @@ def controller_objects(ctx, chi, rng, i):
         ctx.spec('C17.Controller.raises', False, inp, {'raised': repr(e)[:300]})
 
 
+def covariate_objects(ctx, chi, rng, i):
+    """covariate models on their own and as the wrapper's part, after a history of selections of the transformed
+    [param, dim] pairs — written in any order, as lists / tuples / arrays, pairs possibly listed repeatedly (a
+    selection is a set) — and renamings: count = names = number of selected pairs x covariates = accepted vector
+    = gradient length; same count and names as a fresh object given the last selection once per pair"""
+    n_cov = int(rng.integers(1, 4))
+    code = int(rng.integers(7))
+    nd = int(rng.integers(1, 4))
+    n_ids = int(rng.integers(1, 5))
+    P = c02.per_dim(code, n_ids)
+    allp = [[p_, d_] for p_ in range(P) for d_ in range(nd)]
+    hist = []
+    for _ in range(int(rng.integers(1, 4))):
+        sel = [allp[j] for j in rng.choice(len(allp), size=int(rng.integers(1, len(allp) + 1)), replace=False)]
+        if rng.random() < 0.6:
+            sel = repeat_pairs(rng, sel)
+        if rng.random() < 0.2:
+            sel = np.array(sel)
+        hist.append(sel)
+    last = sorted({(int(p_), int(d_)) for p_, d_ in hist[-1]})
+    shown = [np.asarray(h).tolist() for h in hist]
+    rep = any(has_repeats(h) for h in hist)
+    inp = {'object': 'LinearCovariateModel', 'n_cov': n_cov, 'wrapped': c02.KINDS[code], 'n_dim': nd, 'n_ids': n_ids,
+           'selections': shown}
+    ctx.case('Covariate/%s' % ('repeated-pairs' if rep else 'plain'),
+             nontrivial='Cov/%s/%d/%d/%s' % (c02.KINDS[code], nd, n_cov, [len(h) for h in hist]), sample=inp)
+    # --- the covariate model on its own
+    cm = chi.LinearCovariateModel(n_cov=n_cov)
+    tag = 'C17.CovariateModel'
+    ok = True
+    for h in hist:
+        try:
+            cm.set_population_parameters(h)
+        except (ValueError, IndexError):
+            if not has_repeats(h):
+                raise
+            ctx.branches.add('repeated-selection-refused')
+            ok = False              # a refusal must leave the model consistent; which selection it has is open
+    if rng.random() < 0.3:
+        cm.set_parameter_names(['b%d' % k for k in range(cm.n_parameters())])
+    if rng.random() < 0.3:
+        cm.set_parameter_names(None)
+    try:
+        n = cm.n_parameters()
+        names = list(cm.get_parameter_names())
+        pidx, didx = cm.get_set_population_parameters()
+        stored = sorted(zip([int(x) for x in pidx], [int(x) for x in didx]))
+        ctx.spec(tag + '.count_eq_names', n == len(names), inp, {'n_parameters': n, 'names': names})
+        ctx.spec(tag + '.count_eq_selected_times_covariates', n == len(stored) * n_cov and
+                 len(set(stored)) == len(stored), inp, {'n_parameters': n, 'selected': stored, 'n_cov': n_cov})
+        if ok:
+            ctx.spec(tag + '.selection_is_a_set', stored == last and n == len(last) * n_cov, inp,
+                     {'n_parameters': n, 'selected': stored, 'distinct_pairs_of_last_selection': last})
+            mo = ctx.model('C07.linselect', [list(x) for x in np.asarray(hist[-1]).tolist()])
+            ctx.agree('C17.selection', [list(x) for x in stored], sorted(list(x) for x in mo[0]), inp)
+            ctx.agree('C17.selection.n_parameters', n, len(mo[0]) * n_cov, inp)
+        stable_queries(ctx, tag, cm, inp)
+        x = rng.normal(size=n) * 0.3
+        pop = rng.uniform(0.5, 1.5, (P, nd))
+        cov = rng.normal(size=(n_ids, n_cov))
+        th = cm.compute_population_parameters(x, pop, cov)
+        dpop, dpar = cm.compute_sensitivities(x, pop, cov, rng.normal(size=(n_ids, P, nd)))
+        ctx.spec(tag + '.gradient_length', np.shape(dpar) == (n,) and np.shape(dpop) == (P * nd,) and
+                 np.shape(th) == (n_ids, P, nd), inp, {'gradient': list(np.shape(dpar)), 'n_parameters': n})
+    except Exception as e:  # noqa
+        ctx.spec(tag + '.accepts_vector_of_reported_length', False, inp, {'raised': repr(e)[:200]})
+    # --- inside the population-model wrapper
+    inp = dict(inp, object='CovariatePopulationModel')
+    pm = c02.make_sub(chi, code, nd, n_cov, None, n_ids=n_ids)
+    pm.set_n_ids(n_ids)
+    ok = True
+    for h in hist:
+        try:
+            pm.set_population_parameters(h)
+        except (ValueError, IndexError):
+            if not has_repeats(h):
+                raise
+            ctx.branches.add('repeated-selection-refused')
+            ok = False
+    if ok:
+        twin = c02.make_sub(chi, code, nd, n_cov, once(hist[-1]), n_ids=n_ids)
+        twin.set_n_ids(n_ids)
+        ctx.spec('C17.population.repeated_selection_is_a_set', pm.get_parameter_names() == twin.get_parameter_names()
+                 and pm.n_parameters() == twin.n_parameters() == P * nd + len(last) * n_cov, inp,
+                 {'names': pm.get_parameter_names(), 'n': pm.n_parameters(),
+                  'fresh_with_each_pair_once': twin.get_parameter_names()})
+    check_pop(ctx, pm, n_ids, rng, dict(inp, subs=[[c02.KINDS[code], nd, n_cov, shown[-1]]]), 'C17.population',
+              cov_pooled=(code == 5))
+
+
+def top_level_names(ctx, obj, tag, subs, ids, ll_names, top_ref, inp, model=True):
+    """the four name lists of a hierarchical object (all / top level only, with / without ID prefix), its IDs and its
+    two counts against the documented layout: every individual's names (the individual likelihood's names of the
+    dimensions that are not pooled / heterogeneous), individual by individual, then the population model's free
+    names; top level only = exactly that trailing block, whatever its length (also none)"""
+    keep = []
+    off = 0
+    for c, nd, _, _ in subs:
+        if c not in (5, 6):
+            keep += list(range(off, off + nd))
+        off += nd
+    bottom = [ll_names[j] for j in keep]
+    want_all = bottom * len(ids) + list(top_ref)
+    want_ids = [i_ for i_ in ids for _ in bottom] + [None] * len(top_ref)
+    want_pref = [(i_ + ' ' + nm) if i_ else nm for i_, nm in zip(want_ids, want_all)]
+    try:
+        got = {'n': int(obj.n_parameters()), 'n_top': int(obj.n_parameters(exclude_bottom_level=True)),
+               'names': list(obj.get_parameter_names()),
+               'names_with_ids': list(obj.get_parameter_names(include_ids=True)),
+               'top_names': list(obj.get_parameter_names(exclude_bottom_level=True)),
+               'top_names_with_ids': list(obj.get_parameter_names(exclude_bottom_level=True, include_ids=True)),
+               'ids': list(obj.get_id())}
+    except Exception as e:  # noqa
+        ctx.spec(tag + '.top_level_names', False, inp, {'raised': repr(e)[:200]})
+        return
+    n, nt = got['n'], got['n_top']
+    # internal agreement: counts = lengths, the top-level lists are the trailing nt entries of the full lists
+    ctx.spec(tag + '.top_level_names', len(got['top_names']) == nt == len(got['top_names_with_ids']) and
+             got['top_names'] == got['names'][n - nt:] and got['top_names_with_ids'] == got['names_with_ids'][n - nt:]
+             and sum(1 for x in got['ids'] if x is not None) == n - nt, inp,
+             {k: (v if isinstance(v, int) else len(v)) for k, v in got.items()})
+    # against the documented layout
+    want = {'n': len(want_all), 'n_top': len(top_ref), 'names': want_all, 'names_with_ids': want_pref,
+            'top_names': list(top_ref), 'top_names_with_ids': list(top_ref), 'ids': want_ids}
+    bad = [k for k in want if got[k] != want[k]]
+    ctx.spec(tag + '.documented_name_layout', not bad, inp,
+             {'differs_in': bad, 'got': {k: got[k] for k in bad[:2]}, 'expected': {k: want[k] for k in bad[:2]}})
+    if model:
+        mo = ctx.model('C17.topnames', list(ids), bottom, list(top_ref))
+        for j, k in enumerate(['names', 'names_with_ids', 'top_names', 'top_names_with_ids', 'ids', 'n', 'n_top']):
+            ctx.agree('C17.topnames.' + k, got[k], mo[j], inp)
+
+
 def hier_objects(ctx, chi, rng, i, subs=None, n_ids=None):
+    generated = subs is None
     if subs is None:
         n_ids, subs = c02.gen_case(rng)
+        subs = with_repeats(rng, subs)
     D = sum(nd for _, nd, _, _ in subs)
-    models = [c02.make_sub(chi, *s, n_ids=n_ids) for s in subs]
+    models = make_models(ctx, chi, rng, subs, n_ids, {
+        'object': 'population model for a HierarchicalLogLikelihood', 'n_ids': n_ids,
+        'subs': [[c02.KINDS[c], nd, nc, sel] for c, nd, nc, sel in subs]})
+    if models is None:
+        return
     pm = chi.ComposedPopulationModel(models) if (len(models) > 1 or rng.random() < 0.5) else models[0]
+    # the population distribution may be partly or completely known: a reduced population model with some,
+    # all but one, or ALL of its parameters fixed (then only individual-level parameters remain)
+    fixed = []
+    full_top = None
+    if generated and rng.random() < 0.3:
+        pm.set_n_ids(n_ids)
+        full_top = list(pm.get_parameter_names())
+        if full_top and len(set(full_top)) == len(full_top):
+            r = rng.random()
+            k = len(full_top) if r < 0.4 else (len(full_top) - 1 if r < 0.55 else int(rng.integers(1, len(full_top) + 1)))
+            fixed = [full_top[j] for j in sorted(rng.choice(len(full_top), size=k, replace=False))] if k else []
+            if fixed:
+                pm = chi.ReducedPopulationModel(pm)
+                pm.fix_parameters({nm: 1.0 for nm in fixed})
     lls = []
     # labels: none (the hierarchical likelihood assigns 'Log-likelihood <position>'), the user's own, or —
     # likelihoods re-used from an earlier hierarchical model, in another order or subset — labels that look
@@ -524,6 +775,9 @@ def hier_objects(ctx, chi, rng, i, subs=None, n_ids=None):
     cov_pooled = any(c == 5 and nc > 0 for c, _, nc, _ in subs)
     inp = {'object': 'HierarchicalLogLikelihood', 'n_ids': n_ids, 'labels': labels,
            'subs': [[c02.KINDS[c], nd, nc, sel] for c, nd, nc, sel in subs]}
+    if fixed:
+        inp['population_parameters_fixed'] = fixed
+        inp['n_population_parameters_left'] = len(full_top) - len(fixed)
     mlab = ctx.model('C17.labels', labels)[0]
     if len(set(effective)) < len(effective):
         # two individuals would carry the same ID: the object must not come into being
@@ -539,9 +793,10 @@ def hier_objects(ctx, chi, rng, i, subs=None, n_ids=None):
         except Exception as e:  # noqa
             ctx.spec('C17.Hierarchical.raises', False, inp, {'raised': repr(e)[:200]})
         return
-    ctx.case('Hierarchical/nsub%d' % len(subs),
-             nontrivial=('H/%s/%d' % ([(c02.KINDS[c], nd, nc) for c, nd, nc, _ in subs], n_ids))
-             if len(subs) > 1 else False, sample=inp)
+    red = '' if not fixed else ('+all-population-parameters-fixed' if len(fixed) == len(full_top) else '+reduced')
+    ctx.case('Hierarchical/nsub%d%s' % (len(subs), red),
+             nontrivial=('H/%s/%d%s' % ([(c02.KINDS[c], nd, nc) for c, nd, nc, _ in subs], n_ids, red))
+             if (len(subs) > 1 or fixed) else False, sample=inp)
     try:
         hll = chi.HierarchicalLogLikelihood(lls, pm, covariates=cov)
         n = hll.n_parameters()
@@ -567,11 +822,14 @@ def hier_objects(ctx, chi, rng, i, subs=None, n_ids=None):
     except Exception as e:  # noqa
         ctx.spec('C17.Hierarchical.ids_of_individuals_distinct', False, inp, {'raised': repr(e)[:200]})
     ctx.spec('C17.Hierarchical.population_names_in_order', names[n - nt:] == pm.get_parameter_names(), inp)
+    top_level_names(ctx, hll, 'C17.Hierarchical', subs, effective, lls[0].get_parameter_names(),
+                    [nm for nm in full_top if nm not in fixed] if fixed else list(pm.get_parameter_names()), inp)
     # model correspondence (lengths as the Lean model computes them)
     msubs = [[c, nd, nc, [list(p) for p in c02.stored_selection(c, nd, nc, sel, n_ids)]] for c, nd, nc, sel in subs]
     x = rng.uniform(0.5, 1.5, n)
-    mo = ctx.model('C02.call', False, n_ids, msubs, list(x), [] if cov is None else [list(r) for r in cov],
-                   lls[0].get_parameter_names(), pm.get_parameter_names(), [ll.get_id() for ll in lls])
+    mo = [None] if fixed else \
+        ctx.model('C02.call', False, n_ids, msubs, list(x), [] if cov is None else [list(r) for r in cov],
+                  lls[0].get_parameter_names(), pm.get_parameter_names(), [ll.get_id() for ll in lls])
     if len(mo) > 1:
         ctx.agree('C17.n_parameters', n, mo[4] + mo[5], inp)
         ctx.agree('C17.names_length', len(names), len(mo[2]), inp)
@@ -593,6 +851,9 @@ def hier_objects(ctx, chi, rng, i, subs=None, n_ids=None):
         post = chi.HierarchicalLogPosterior(hll, prior)
         ctx.spec('C17.HierarchicalLogPosterior.count_eq_names_eq_ids',
                  post.n_parameters() == len(post.get_parameter_names()) == len(post.get_id()) == n, inp)
+        top_level_names(ctx, post, 'C17.HierarchicalLogPosterior', subs, effective, lls[0].get_parameter_names(),
+                        [nm for nm in full_top if nm not in fixed] if fixed else list(pm.get_parameter_names()), inp,
+                        model=False)
 
 
 def predictive_objects(ctx, chi, rng, i):
@@ -728,6 +989,8 @@ def run(ctx):
             ctx.guard(controller_objects, ctx, chi, ctx.sub_rng(4 * i + 3), i)
         if i % 4 == 1:
             ctx.guard(reduced_then_resized, ctx, chi, ctx.sub_rng(4 * i + 3))
+        if i % 4 == 3:
+            ctx.guard(covariate_objects, ctx, chi, ctx.sub_rng(4 * i + 3), i)
     ctx.guard(sbml_objects, ctx, chi, ctx.sub_rng(10 ** 6), 12 if quick else 80)
     if not quick:
         opts = [(c, nd, 0, None) for c in range(7) for nd in (1, 2)]
